@@ -6,6 +6,7 @@ package exec
 // each other by the solver), plus the summary of padToLengthBytesInPlace.
 
 import (
+	"fmt"
 	"go/types"
 
 	"gosym/smt"
@@ -46,14 +47,24 @@ func init() {
 			panic(unsupported("ecdsa.Verify hash argument"))
 		}
 		inRange := c.And(c.Ge(r, c.IntC64(1)), c.Lt(r, N), c.Ge(s, c.IntC64(1)), c.Lt(s, N))
+		// all-honest run: r = 0 or s = 0 (mod N) is a coin event (excluded, counted); the upper
+		// bounds r, s < N are NOT assumed: an unreduced component must still be refused
+		p.genericCoins(c.Or(c.Eq(c.Mod(r, N), c.IntC64(0)), c.Eq(c.Mod(s, N), c.IntC64(0))), "ecdsa-signature-component-zero")
 		if !p.fork(inRange, "ecdsa r,s in range") {
 			return false
 		}
 		// w = s^-1 mod N (s is a unit: N prime, 0 < s < N)
-		w := c.Fresh("inv", smt.Int)
-		p.markNonNeg(w)
-		p.axiom("inverse-def", c.And(c.Ge(w, c.IntC64(0)), c.Lt(w, N), c.Eq(c.Mod(c.Mul(s, w), N), c.IntC64(1))))
-		p.registerInverse(w, s, N)
+		var w *smt.Term
+		wkey := fmt.Sprintf("inv:%d:%d", p.canonMod(s, N).ID, N.ID)
+		if prev, ok := p.ghost[wkey]; ok {
+			w = prev.(*smt.Term) // the unique inverse of this residue (shared with ModInverse)
+		} else {
+			w = c.Fresh("inv", smt.Int)
+			p.ghost[wkey] = w
+			p.markNonNeg(w)
+			p.axiom("inverse-def", c.And(c.Ge(w, c.IntC64(0)), c.Lt(w, N), c.Eq(c.Mod(c.Mul(s, w), N), c.IntC64(1))))
+			p.registerInverse(w, s, N)
+		}
 		d := p.canonMod(c.Mul(c.Add(e, c.Mul(r, dP)), w), N)
 		// the sum point; the identity is rejected
 		dz := p.congruent(d, c.IntC64(0), N)
